@@ -294,6 +294,9 @@ class Machine:
                 flat = cat(self.B.const(x & ((1 << w) - 1), w) for x in v)
                 self.mem[base] = (lambda fl: (lambda off, nb: fl[8 * off: 8 * off + 8 * nb]))(flat)
                 self.consts_read.append((base, tuple(v)))
+                if not hasattr(self, "const_arrays"):
+                    self.const_arrays = {}
+                self.const_arrays[base] = {i: self.B.const(x & ((1 << w) - 1), w) for i, x in enumerate(v)}
                 return ("ptr", base, 0)
             if isinstance(v, list) and not ty.startswith("&"):
                 def conv(x):
@@ -1129,6 +1132,9 @@ class Machine:
             return ref[1], ref[2], ref[3] - ref[2]
         if isinstance(ref, dict):
             return ref, 0, len(ref)
+        if isinstance(ref, tuple) and ref and ref[0] == "ptr" and ref[2] == 0 and ref[1] in getattr(self, "const_arrays", {}):
+            c_ = dict(self.const_arrays[ref[1]])       # a constant array read as a sequence (e.g. `&[]`)
+            return c_, 0, len(c_)
         raise Unsupported("sequence %r" % (ref[:1] if isinstance(ref, tuple) else str(ref)[:60],))
 
     def elem(self, ref, i, w):
